@@ -23,7 +23,7 @@ EXPLANATION = (
     "needs-execution all hold; (R4) the first production of a name always advances its version, so a consumer that already ran on its signature "
     "default is re-run with the upstream value; (R5) a tuple return is unpacked positionally onto the data output names after a length check, a "
     "single output is stored as returned; (R6) both supersteps record a node's consumed input versions from the pre-step snapshot it read its "
-    "inputs from (recording a fresher version would keep a consumer that ran on a default from ever re-running with the upstream value). (R7) the DEFAULT source: a function node's defaults table is keyed through the forward rename map (current names), has/get_default_for read that table, and the map builder applies the renames of one with_inputs call in parallel (the per-batch loop never writes the map it looks up). R1 also requires that the table BOUND values are resolved from is complete: the merged mapping starts as an unfiltered copy of the graph's own bindings and nothing is removed from it (scope narrowing by select/entry points never hides a binding from a node that still runs)."
+    "inputs from (recording a fresher version would keep a consumer that ran on a default from ever re-running with the upstream value). (R7) the DEFAULT source: a function node's defaults table is keyed through the forward rename map (current names), has/get_default_for read that table, and the map builder applies the renames of one with_inputs call in parallel (the per-batch loop never writes the map it looks up). R1 also requires that the table BOUND values are resolved from is complete: the merged mapping starts as an unfiltered copy of the graph's own bindings and nothing is removed from it (scope narrowing by select/entry points never hides a binding from a node that still runs). R3 also requires the staleness test to compare each input's current version with the version recorded for that same input; (R8) the function executors rebind the function's result only when it is the coroutine of an async node function (awaited) or under the node's declared generator mode — never under a test on what kind of object the value happens to be."
 )
 NOT_DECIDED = "That returned values equal the reference evaluation; that edges are inferred correctly from names; exactly-once execution."
 
